@@ -418,13 +418,16 @@ def selftest(eng):
         root = os.path.join(base, "root")
         sub.materialise(root, {"a.txt": b"a", "d": DIR, "d/b.txt": b"b", "e": DIR})
         r1 = ctx.run("create", [root + "/d", "-h", "md5"], now=sub.NOW0)
+        sub.reset_mtimes(root)
         r2 = ctx.run("create", [root, "-h", "xxh64", "-h", "c4"], now=sub.NOW0 + 1)
         r3 = ctx.run("verify", [root], now=sub.NOW0 + 2)
         outs.append((sub.readback(root), r1.exit, r2.exit, r3.exit, r3.out.replace(base, "")))
         sub.rm(base)
     if outs[0] != outs[1]:   # only determinism is demanded here; wrong results are the oracles' business
+        a, b = outs[0][0], outs[1][0]
+        diff = [k for k in set(a) | set(b) if a.get(k, 0) != b.get(k, 0)]
         raise HarnessError("nondeterminism not captured (two identical runs gave different trees/results): "
-                           + repr([o[1:] for o in outs]))
+                           + repr([o[1:] for o in outs]) + " differing entries: " + repr(sorted(diff)[:6]))
 
 
 def replay_file(path, eval_case, prop):
